@@ -171,6 +171,51 @@ def explore(ctx, n):
     return cases, fails
 
 
+def resend(ctx):
+    """the SAME wrapper object sent several times while the state its function carries changes in between (closure cell, function
+    attribute, defaults): every send must arrive behaving like the wrapped function behaves at that moment"""
+    if sys.path[0] != vlib.REPO:
+        sys.path.insert(0, vlib.REPO)
+    import loky.cloudpickle_wrapper as cw
+    fails, n = [], 0
+
+    def counter():
+        c = [0]
+        def f(x=1):
+            c[0] += x
+            return c[0]
+        return f
+
+    def with_attr():
+        def g():
+            return g.level
+        g.level = 1
+        return g
+
+    def with_default():
+        def h(a, b="x"):
+            return f"{a}-{b}"
+        return h
+    for keep in (False, True):
+        for name, make, poke, call in (
+                ("closure cell", counter, lambda f: f(3), lambda f: f(0)),
+                ("function attribute", with_attr, lambda f: setattr(f, "level", f.level + 4), lambda f: f()),
+                ("defaults", with_default, lambda f: setattr(f, "__defaults__", ("y",)), lambda f: f("a"))):
+            fn = make()
+            w = cw.wrap_non_picklable_objects(fn, keep_wrapper=keep)
+            for send in range(3):
+                n += 1
+                got = call(pickle.loads(pickle.dumps(w)))
+                want = call(fn)
+                if name == "closure cell":
+                    want = call(fn)          # call(fn) with 0 does not change the count
+                if got != want:
+                    fails.append((f"function with a {name}", [keep], send + 1,
+                                  f"send #{send + 1} of the same wrapper arrived behaving as {got!r}, the wrapped function gives {want!r}"))
+                poke(fn)
+    return n, fails
+
+
 def model_compare(cases):
     rows = []
     for c, layers, trips, real_shape, _ in cases:
@@ -197,6 +242,8 @@ def run(ctx):
     n = 400 if ctx.tier == "quick" else 10000
     pr = vlib.prove(ctx, PROP_FILE, ["Wrapper"])
     cases, fails = explore(ctx, n)
+    n_resend, rfails = resend(ctx)
+    fails = fails + rfails
     disagreements = 0
     if fails:
         name, keeps, trips, why = fails[0]
